@@ -51,6 +51,23 @@ class _Break(Exception):
     pass
 
 
+class _BodyExit(Exception):
+    """a return/break/continue of a with-body travelling through the @contextmanager generator that hosts it"""
+    def __init__(self, cf):
+        self.cf = cf
+
+
+class _GenCM:
+    """a called @contextmanager generator function, not yet entered"""
+    def __init__(self, func, env):
+        self.func, self.env = func, env
+
+
+class _Suppress:
+    def __init__(self, names):
+        self.names = names
+
+
 class _Continue(Exception):
     pass
 
@@ -493,7 +510,7 @@ class Interp:
                 self.call_fi(init, [o] + list(args), kwargs)
             return o
         o = Obj(ci)
-        if ci.is_dataclass() or self._dataclass_base(ci):
+        if ci.is_dataclass() or self._dataclass_base(ci) or self._is_namedtuple(ci):
             fields = self._dc_fields(ci)
             names = [f for f, _, _, init in fields if init]
             bound = dict(zip(names, args))
@@ -527,6 +544,9 @@ class Interp:
                 if bc.key not in seen and self._is_exception(bc, seen + (ci.key,)):
                     return True
         return False
+
+    def _is_namedtuple(self, ci):
+        return any(b in ("NamedTuple", "typing.NamedTuple") for b in ci.bases)
 
     def _dataclass_base(self, ci):
         return any(bc.is_dataclass() for b in ci.bases for bc in self.p.classes.get(b, []))
@@ -606,6 +626,8 @@ class Interp:
             self._bind(node.args, args, kwargs, env, f.module, qual)
             if isinstance(node, ast.Lambda):
                 return self.eval(node.body, env, f.module)
+            if _is_generator(node) and any((dotted(d) or "").split(".")[-1] == "contextmanager" for d in getattr(node, "decorator_list", [])):
+                return _GenCM(f, env)
             if _is_generator(node):
                 # generator function: run eagerly, collecting what it yields (sequential semantics; the consumer
                 # sees the same values in the same order — interleaving of effects with the consumer is not modelled)
@@ -627,7 +649,11 @@ class Interp:
         ok, acc = env.lookup("__yielded__")
         if not ok:
             raise Imprecise(f"yield outside an interpreted generator at {module.rel}:{e.lineno}")
-        acc.append(self.eval(e.value, env, module) if e.value is not None else None)
+        val = self.eval(e.value, env, module) if e.value is not None else None
+        if callable(acc):
+            acc(val)          # @contextmanager: the with-body runs here
+            return None
+        acc.append(val)
         return None
 
     def e_YieldFrom(self, e, env, module):
@@ -807,7 +833,19 @@ class Interp:
                 for i, e in enumerate(t.elts):
                     self.assign(e, self.fresh(f"{v.sym}[{i}]"), env, module)
                 return
-            vals = list(v)
+            vals = list(v) if isinstance(v, (list, tuple, set, frozenset, dict, str, range)) else list(self.iterate(v))
+            star = [i for i, e in enumerate(t.elts) if isinstance(e, ast.Starred)]
+            if star:
+                i = star[0]
+                after = len(t.elts) - i - 1
+                if len(vals) < len(t.elts) - 1:
+                    raise PyRaise(ExcVal("ValueError", ("unpack",)))
+                for e, x in zip(t.elts[:i], vals[:i]):
+                    self.assign(e, x, env, module)
+                self.assign(t.elts[i].value, list(vals[i:len(vals) - after]), env, module)
+                for e, x in zip(t.elts[i + 1:], vals[len(vals) - after:] if after else []):
+                    self.assign(e, x, env, module)
+                return
             if len(vals) != len(t.elts):
                 raise PyRaise(ExcVal("ValueError", ("unpack",)))
             for e, x in zip(t.elts, vals):
@@ -820,6 +858,101 @@ class Interp:
             self.exec_block(st.body, env, module)
         else:
             self.exec_block(st.orelse, env, module)
+
+    def x_Match(self, st, env, module):
+        subj = self.eval(st.subject, env, module)
+        for case in st.cases:
+            binds = {}
+            m = self._match(case.pattern, subj, binds, env, module)
+            if m:
+                for k, v in binds.items():
+                    env.vars[k] = v
+                if case.guard is not None and not self.truth(self.eval(case.guard, env, module), short(case.guard)):
+                    continue
+                self.exec_block(case.body, env, module)
+                return
+
+    def _match(self, pat, v, binds, env, module):
+        if isinstance(pat, ast.MatchValue):
+            r = self.compare(ast.Eq(), v, self.eval(pat.value, env, module))
+            return self.truth(r, f"match {short(pat.value)}")
+        if isinstance(pat, ast.MatchSingleton):
+            return v is pat.value
+        if isinstance(pat, ast.MatchAs):
+            if pat.pattern is not None and not self._match(pat.pattern, v, binds, env, module):
+                return False
+            if pat.name is not None:
+                binds[pat.name] = v
+            return True
+        if isinstance(pat, ast.MatchOr):
+            for sub in pat.patterns:
+                b2 = {}
+                if self._match(sub, v, b2, env, module):
+                    binds.update(b2)
+                    return True
+            return False
+        if isinstance(pat, ast.MatchSequence):
+            if isinstance(v, Unknown) or not isinstance(v, (list, tuple)):
+                if isinstance(v, Unknown):
+                    raise Imprecise(f"match of an unknown value against a sequence pattern at {module.rel}:{pat.lineno}")
+                return False
+            stars = [i for i, x in enumerate(pat.patterns) if isinstance(x, ast.MatchStar)]
+            if not stars:
+                if len(v) != len(pat.patterns):
+                    return False
+                return all(self._match(sp, x, binds, env, module) for sp, x in zip(pat.patterns, v))
+            i = stars[0]
+            before, after = pat.patterns[:i], pat.patterns[i + 1:]
+            if len(v) < len(before) + len(after):
+                return False
+            ok = all(self._match(sp, x, binds, env, module) for sp, x in zip(before, v[:len(before)]))
+            ok = ok and all(self._match(sp, x, binds, env, module) for sp, x in zip(after, v[len(v) - len(after):] if after else []))
+            if ok and pat.patterns[i].name:
+                binds[pat.patterns[i].name] = list(v[len(before):len(v) - len(after)])
+            return ok
+        if isinstance(pat, ast.MatchMapping):
+            if not isinstance(v, dict):
+                return False
+            for k, sp in zip(pat.keys, pat.patterns):
+                kv = self.eval(k, env, module)
+                if kv not in v or not self._match(sp, v[kv], binds, env, module):
+                    return False
+            if pat.rest:
+                binds[pat.rest] = {k: x for k, x in v.items() if k not in [self.eval(kk, env, module) for kk in pat.keys]}
+            return True
+        if isinstance(pat, ast.MatchClass):
+            cref = self.eval(pat.cls, env, module)
+            if isinstance(cref, ClassRef):
+                if not (isinstance(v, Obj) and v.cls is not None and (v.cls is cref.ci or cref.ci in self._ancestors(v.cls))):
+                    if isinstance(v, EnumVal) and v.cls is cref.ci and not pat.patterns and not pat.kwd_attrs:
+                        return True
+                    return False
+                names = [f for f, _, _, _ in self._dc_fields(v.cls)]
+                for i, sp in enumerate(pat.patterns):
+                    if i >= len(names) or not self._match(sp, v.fields.get(names[i]), binds, env, module):
+                        return False
+                for a, sp in zip(pat.kwd_attrs, pat.kwd_patterns):
+                    if not self._match(sp, self.getattr(v, a), binds, env, module):
+                        return False
+                return True
+            if isinstance(cref, ExtRef) and cref.name in ("int", "str", "float", "bool", "list", "dict", "tuple", "set"):
+                t = {"int": int, "str": str, "float": float, "bool": bool, "list": list, "dict": dict, "tuple": tuple, "set": set}[cref.name]
+                if isinstance(v, Unknown):
+                    raise Imprecise("match of an unknown value against a builtin class pattern")
+                if not isinstance(v, t) or (t is int and isinstance(v, bool)):
+                    return False
+                return all(self._match(sp, v, binds, env, module) for sp in pat.patterns)
+            raise Imprecise(f"class pattern {short(pat.cls)} at {module.rel}:{pat.lineno}")
+        raise Imprecise(f"pattern {type(pat).__name__} at {module.rel}:{getattr(pat, 'lineno', '?')}")
+
+    def _ancestors(self, ci, seen=()):
+        out = []
+        for b in ci.bases:
+            for bc in self.p.classes.get(b, []):
+                if bc.key not in seen:
+                    out.append(bc)
+                    out.extend(self._ancestors(bc, seen + (ci.key,)))
+        return out
 
     def x_While(self, st, env, module):
         n = 0
@@ -870,6 +1003,10 @@ class Interp:
             return it.items()
         if isinstance(it, ClassRef) and it.ci.is_enum():
             return self.enum_members(it.ci)
+        if isinstance(it, Obj) and it.cls is not None and self._is_namedtuple(it.cls):
+            return [it.fields[f] for f, _, _, _ in self._dc_fields(it.cls)]
+        if isinstance(it, Obj) and it.cls is not None and self.p.find_method(it.cls, "__iter__") is not None:
+            return self.iterate(self.call_fi(self.p.find_method(it.cls, "__iter__"), [it], {}), where_)
         if isinstance(it, Unknown):
             # unknown collection: 0, 1 or 2 unknown elements
             n = self.o.choose(self.max_unknown_len + 1, f"len({it.sym})", key=("len", it.sym))
@@ -877,11 +1014,90 @@ class Interp:
         raise Imprecise(f"cannot iterate {it!r} at {where_}")
 
     def x_With(self, st, env, module):
-        for item in st.items:
-            v = self.eval(item.context_expr, env, module)
+        self._with_items(list(st.items), st.body, env, module)
+
+    def _with_items(self, items, body, env, module):
+        """`with a as x, b as y: body` — context-manager protocol for the repo's own managers (classes with
+        __enter__/__exit__, @contextmanager generator functions, contextlib.suppress); locks and unknown managers are
+        entered trivially"""
+        if not items:
+            self.exec_block(body, env, module)
+            return
+        item, rest = items[0], items[1:]
+        v = self.eval(item.context_expr, env, module)
+
+        def inner():
+            self._with_items(rest, body, env, module)
+        if isinstance(v, _GenCM):
+            # run the generator function; its `yield` runs the with-body in place, so the body's exceptions travel
+            # through the generator's own try/except/finally exactly as gen.throw() would deliver them
+            state = {"ran": False}
+
+            def at_yield(value):
+                if state["ran"]:
+                    raise PyRaise(ExcVal("RuntimeError", ("generator didn't stop",)))
+                state["ran"] = True
+                if item.optional_vars is not None:
+                    self.assign(item.optional_vars, value, env, module)
+                try:
+                    inner()
+                except (_Return, _Break, _Continue) as cf:
+                    raise _BodyExit(cf)
+            v.env.vars["__yielded__"] = at_yield
+            carried = None
+            try:
+                try:
+                    self.exec_block(v.func.node.body, v.env, v.func.module)
+                except _Return:
+                    pass
+            except _BodyExit as be:
+                carried = be.cf
+            if not state["ran"]:
+                raise PyRaise(ExcVal("RuntimeError", ("generator didn't yield",)))
+            if carried is not None:
+                raise carried
+            return
+        if isinstance(v, _Suppress):
+            try:
+                if item.optional_vars is not None:
+                    self.assign(item.optional_vars, None, env, module)
+                inner()
+            except PyRaise as pr:
+                anc = self.exc_ancestors(pr.exc) | {getattr(pr.exc, "clsname", "")}
+                if not (anc & set(v.names)) and "Exception" not in v.names and "BaseException" not in v.names:
+                    raise
+            return
+        if isinstance(v, Obj) and v.cls is not None and self.p.find_method(v.cls, "__enter__") is not None:
+            entered = self.call_fi(self.p.find_method(v.cls, "__enter__"), [v], {})
+            if item.optional_vars is not None:
+                self.assign(item.optional_vars, entered, env, module)
+            ex = self.p.find_method(v.cls, "__exit__")
+            try:
+                inner()
+            except PyRaise as pr:
+                r = self.call_fi(ex, [v, ExtRef(getattr(pr.exc, "clsname", "Exception")), pr.exc, None], {}) if ex is not None else None
+                if r is not None and self.truth(r, "__exit__ suppresses"):
+                    return
+                raise
+            except (_Return, _Break, _Continue):
+                if ex is not None:
+                    self.call_fi(ex, [v, None, None, None], {})
+                raise
+            if ex is not None:
+                self.call_fi(ex, [v, None, None, None], {})
+            return
+        if isinstance(v, Obj) and v.cls is None:
+            self.event("sync", v.tag, "__enter__")
             if item.optional_vars is not None:
                 self.assign(item.optional_vars, v, env, module)
-        self.exec_block(st.body, env, module)
+            try:
+                inner()
+            finally:
+                self.event("sync", v.tag, "__exit__")
+            return
+        if item.optional_vars is not None:
+            self.assign(item.optional_vars, v, env, module)
+        inner()
 
     def x_Try(self, st, env, module):
         try:
@@ -1263,6 +1479,10 @@ class Interp:
                     return ClassRef(o.cls)
                 if attr == "args" and self._is_exception(o.cls):
                     return o.fields.get("args", ())
+            if o.cls is not None and self._is_namedtuple(o.cls) and attr in ("_replace", "_asdict", "_fields"):
+                if attr == "_fields":
+                    return tuple(f for f, _, _, _ in self._dc_fields(o.cls))
+                return BoundBuiltin(o, attr)
             if o.cls is None and o.tag in ("Lock", "RLock", "Condition", "Semaphore", "Event") and attr in ("acquire", "release", "locked", "__enter__", "__exit__", "set", "clear", "is_set", "wait", "notify", "notify_all"):
                 return BoundBuiltin(o, attr)
             raise PyRaise(ExcVal("AttributeError", (f"{o!r} has no attribute {attr}",)))
@@ -1315,6 +1535,10 @@ class Interp:
             if attr == "__name__":
                 return getattr(o.node, "name", "<lambda>")
             return self.fresh(f"func.{attr}")
+        if isinstance(o, _Deque) and attr == "maxlen":
+            return o.maxlen
+        if isinstance(o, _DefaultDict) and attr == "default_factory":
+            return o.factory
         if isinstance(o, (str, list, dict, set, tuple, int, float, frozenset, _DictView)) or o is None:
             if o is None:
                 raise PyRaise(ExcVal("AttributeError", (f"None has no attribute {attr}",)))
@@ -1377,11 +1601,28 @@ class Interp:
             if isinstance(c, (dict, list, tuple)) and len(c) == 0:
                 raise PyRaise(ExcVal("KeyError" if isinstance(c, dict) else "IndexError", (k,)))
             return self.fresh("item")
+        if isinstance(c, _DefaultDict) and not isinstance(k, Unknown):
+            try:
+                if k not in c:
+                    if c.factory is None:
+                        raise PyRaise(ExcVal("KeyError", (k,)))
+                    c[k] = self.call(c.factory, [], {})
+                return c[k]
+            except TypeError as ex:
+                raise PyRaise(ExcVal("TypeError", (str(ex),)))
         if isinstance(c, (list, tuple, str, dict)):
             try:
                 return c[k]
             except (KeyError, IndexError, TypeError) as ex:
                 raise PyRaise(ExcVal(type(ex).__name__, (k,)))
+        if isinstance(c, Obj) and c.cls is not None and self._is_namedtuple(c.cls) and isinstance(k, int):
+            names = [f for f, _, _, _ in self._dc_fields(c.cls)]
+            try:
+                return c.fields[names[k]]
+            except IndexError:
+                raise PyRaise(ExcVal("IndexError", (k,)))
+        if isinstance(c, Obj) and c.cls is not None and self.p.find_method(c.cls, "__getitem__") is not None:
+            return self.call_fi(self.p.find_method(c.cls, "__getitem__"), [c, k], {})
         if isinstance(c, ExtRef):
             return ExtRef(f"{c.name}[…]")
         raise Imprecise(f"subscript of {c!r} at {module.rel}:{e.lineno}")
@@ -1667,6 +1908,70 @@ class Interp:
                 raise PyRaise(ExcVal(type(ex).__name__, (str(ex),)))
         if last in ("OrderedDict",) and not args:
             return {}
+        if name in ("dataclasses.replace", "replace") and args and isinstance(args[0], Obj) and args[0].cls is not None:
+            src_ = args[0]
+            o2 = Obj(src_.cls, dict(src_.fields))
+            for k, v in kwargs.items():
+                if k not in o2.fields and k not in [f for f, _, _, _ in self._dc_fields(src_.cls)]:
+                    raise PyRaise(ExcVal("TypeError", (f"unexpected field {k}",)))
+                o2.fields[k] = v
+            post = self.p.find_method(src_.cls, "__post_init__")
+            if post:
+                self.call_fi(post, [o2], {})
+            return o2
+        if name in ("dataclasses.asdict", "asdict") and args and isinstance(args[0], Obj):
+            return {k: v for k, v in args[0].fields.items()}
+        if name in ("contextlib.suppress", "suppress"):
+            return _Suppress([a.name.split(".")[-1] if isinstance(a, ExtRef) else (a.ci.name if isinstance(a, ClassRef) else str(a)) for a in args])
+        if name in ("contextlib.nullcontext", "nullcontext"):
+            return Obj(None, {}, tag="nullcontext")
+        if name in ("collections.deque", "deque"):
+            items = list(self.iterate(args[0])) if args else []
+            ml = kwargs.get("maxlen", args[1] if len(args) > 1 else None)
+            d = _Deque(items, ml)
+            return d
+        if name in ("collections.defaultdict", "defaultdict"):
+            return _DefaultDict(args[0] if args else None)
+        if name in ("functools.partial", "partial") and args:
+            fn_, pre, prekw = args[0], list(args[1:]), dict(kwargs)
+
+            def _partial(interp, a, kw, _f=fn_, _pre=pre, _kw=prekw):
+                return interp.call(_f, _pre + list(a), {**_kw, **kw})
+            _partial._opsa_stub = True
+            return _partial
+        if name in ("itertools.takewhile", "takewhile") and len(args) == 2:
+            out = []
+            for x in self.iterate(args[1]):
+                if not self.truth(self.call(args[0], [x], {}), "takewhile"):
+                    break
+                out.append(x)
+            return out
+        if name in ("itertools.dropwhile", "dropwhile") and len(args) == 2:
+            items, i = list(self.iterate(args[1])), 0
+            while i < len(items) and self.truth(self.call(args[0], [items[i]], {}), "dropwhile"):
+                i += 1
+            return items[i:]
+        if name in ("itertools.filterfalse", "filterfalse") and len(args) == 2:
+            return [x for x in self.iterate(args[1]) if not self.truth(self.call(args[0], [x], {}) if args[0] is not None else x, "filterfalse")]
+        if name in ("itertools.starmap", "starmap") and len(args) == 2:
+            return [self.call(args[0], list(self.iterate(x)), {}) for x in self.iterate(args[1])]
+        if name in ("itertools.accumulate", "accumulate") and args:
+            items = list(self.iterate(args[0]))
+            fn_ = args[1] if len(args) > 1 else kwargs.get("func")
+            out = []
+            for i, x in enumerate(items):
+                out.append(x if i == 0 else (self.call(fn_, [out[-1], x], {}) if fn_ is not None else self.binop(ast.Add(), out[-1], x)))
+            return out
+        if name in ("itertools.zip_longest", "zip_longest"):
+            cols = [list(self.iterate(a)) for a in args]
+            n = max((len(c) for c in cols), default=0)
+            fill = kwargs.get("fillvalue")
+            return [tuple(c[i] if i < len(c) else fill for c in cols) for i in range(n)]
+        if name in ("itertools.product", "product") and "repeat" not in kwargs:
+            import itertools as _it
+            return [tuple(t) for t in _it.product(*[list(self.iterate(a)) for a in args])]
+        if name in ("itertools.repeat", "repeat") and len(args) == 2 and isinstance(args[1], int):
+            return [args[0]] * args[1]
         if name in ("functools.reduce", "reduce") and len(args) >= 2:
             items = list(self.iterate(args[1]))
             if len(args) >= 3:
@@ -1768,6 +2073,12 @@ class Interp:
 
     def _method(self, recv, name, args, kwargs):
         """method of a native value"""
+        if isinstance(recv, Obj) and recv.cls is not None and name in ("_replace", "_asdict"):
+            if name == "_asdict":
+                return dict(recv.fields)
+            o2 = Obj(recv.cls, dict(recv.fields))
+            o2.fields.update(kwargs)
+            return o2
         if isinstance(recv, Obj) and recv.cls is None:
             # synchronisation primitives: sequential interpretation, so acquiring always succeeds at once
             self.event("sync", recv.tag, name)
@@ -1836,6 +2147,36 @@ class Interp:
                 last_ = kwargs.get("last", args[0] if args else True)
                 k = list(recv.keys())[-1 if last_ else 0]
                 return (k, recv.pop(k))
+        if isinstance(recv, _Deque):
+            ml = recv.maxlen
+            if name == "append":
+                recv.append(args[0])
+                if ml is not None and len(recv) > ml:
+                    del recv[0]
+                return None
+            if name == "appendleft":
+                recv.insert(0, args[0])
+                if ml is not None and len(recv) > ml:
+                    del recv[-1]
+                return None
+            if name == "extend":
+                for x in self.iterate(args[0]):
+                    recv.append(x)
+                    if ml is not None and len(recv) > ml:
+                        del recv[0]
+                return None
+            if name == "popleft":
+                if not recv:
+                    raise PyRaise(ExcVal("IndexError", ("pop from an empty deque",)))
+                return recv.pop(0)
+            if name == "rotate":
+                n_ = args[0] if args else 1
+                if recv and isinstance(n_, int):
+                    n_ %= len(recv)
+                    recv[:] = recv[-n_:] + recv[:-n_] if n_ else recv[:]
+                return None
+            if name == "copy":
+                return _Deque(list(recv), ml)
         if isinstance(recv, list):
             if name == "append":
                 recv.append(args[0])
@@ -1933,6 +2274,21 @@ class Interp:
         if isinstance(recv, _DictView):
             raise Imprecise(f"method {name} on dict view")
         raise Imprecise(f"method {name} on {type(recv).__name__}")
+
+
+class _Deque(list):
+    """collections.deque as a list with an optional maximum length (enforced by the method model)"""
+    def __init__(self, items=(), maxlen=None):
+        super().__init__(items)
+        self.maxlen = maxlen
+        if maxlen is not None and len(self) > maxlen:
+            del self[:len(self) - maxlen]
+
+
+class _DefaultDict(dict):
+    def __init__(self, factory=None):
+        super().__init__()
+        self.factory = factory
 
 
 class _DictView:
